@@ -19,6 +19,10 @@ pub(crate) type Default = Empty;
 use core::alloc::Layout;
 use core::ptr::NonNull;
 
+/// Alignment of the on-stack byte buffers ([`Stack`], [`StackN`]).
+/// Element types with bigger alignment are rejected at `build()`.
+pub(crate) const STACK_MAX_ALIGN: usize = 64;
+
 /// This is [`Mem`] builder.
 ///
 /// It can be stateful. You can use it like Allocator.
